@@ -457,14 +457,26 @@ class CalibrationDataBlock(Block):
 
         return (
             self.distorsion_model == o.distorsion_model
-            and np.array_equal(self.calibration_volume_size, o.calibration_volume_size)
+            # the calibration volume is stored as 32 bit floats: compare it at that width
             and np.array_equal(
-                self.calibration_volume_rotation_matrix,
-                o.calibration_volume_rotation_matrix,
+                np.asarray(self.calibration_volume_size, dtype=VEC3F.btype.base),
+                np.asarray(o.calibration_volume_size, dtype=VEC3F.btype.base),
             )
             and np.array_equal(
-                self.calibration_volume_translation_vector,
-                o.calibration_volume_translation_vector,
+                np.asarray(
+                    self.calibration_volume_rotation_matrix, dtype=MAT3X3F.btype.base
+                ),
+                np.asarray(
+                    o.calibration_volume_rotation_matrix, dtype=MAT3X3F.btype.base
+                ),
+            )
+            and np.array_equal(
+                np.asarray(
+                    self.calibration_volume_translation_vector, dtype=VEC3F.btype.base
+                ),
+                np.asarray(
+                    o.calibration_volume_translation_vector, dtype=VEC3F.btype.base
+                ),
             )
             and np.array_equal(self.cameras_calibration_map, o.cameras_calibration_map)
             and len(self.cam_data) == len(o.cam_data)
